@@ -220,6 +220,8 @@ MUTANTS = [
     # ---- C15
     ("c15-expired-gt", "C15", "rpyc/lib/__init__.py",
      "        return self.finite and time.time() >= self.tmax", "        return self.finite and time.time() > self.tmax"),
+    ("c15-timed-absolute-deadline", "C15", "rpyc/utils/helpers.py",
+     "        self.timeout = timeout\n", "        from rpyc.lib import Timeout\n        self.timeout = Timeout(timeout)\n"),
     ("c15-call-ignores-expiry", "C15", "rpyc/core/async_.py",
      "        if self.expired:\n            return\n        self._is_exc = is_exc", "        self._is_exc = is_exc"),
     ("c15-callback-after-ready-appended", "C15", "rpyc/core/async_.py",
